@@ -787,9 +787,31 @@ impl TCheck {
                     if matches!(e.kind, K::OverlappingLabels | K::CouldNotFindLabel | K::OffsetExternal | K::UndetAddrLabel | K::OffsetNewErr(_)) {
                         let sp = e.span.first();
                         let t = src.get(sp.clone()).unwrap_or("");
-                        let is_label = !t.is_empty() && t.chars().all(|c| c.is_ascii_alphanumeric() || c == '_') && !t.chars().next().unwrap().is_ascii_digit();
+                        let is_label = !t.is_empty() && t.chars().all(|c| c.is_alphanumeric() || c == '_') && !t.chars().next().unwrap().is_ascii_digit();
                         if !is_label {
                             return fail(0, "label-span-not-a-label", format!("error {:?}: first span {sp:?} reads {t:?}, which is not a label spelling", e.kind));
+                        }
+                        // the injected fault names the offending label: every span reads a spelling of it
+                        let offending: Option<&str> = match kind {
+                            0 => Some("DUPL_X"),
+                            1 => Some("NOSUCHLABEL_Q"),
+                            5 => Some("STRAY_LABEL"),
+                            7 => Some("EXT_Q"),
+                            10 => Some("LATE_LABEL"),
+                            12 => Some("DUP_E"),
+                            13 => Some("DUP_F"),
+                            14 => Some("FENÊTRE_Q"),
+                            15 => Some("CAFÉ"),
+                            16 => Some("LATE_É"),
+                            _ => None,
+                        };
+                        if let Some(l) = offending {
+                            for sp in e.span.iter() {
+                                let t = src.get(sp.clone()).unwrap_or("");
+                                if t.to_uppercase() != l {
+                                    return fail(0, "label-span-wrong-label", format!("error {:?} about the injected label {l}: span {sp:?} reads {t:?}", e.kind));
+                                }
+                            }
                         }
                     }
                     out.fingerprint = Some(fp.0);
@@ -1259,6 +1281,14 @@ fn inject_src_fault(src: &str, kind: u8, at: u32) -> String {
             }
             lines.push(".external DUP_F".into());
         }
+        // labels with non-ASCII characters (the lexer accepts them after an ASCII first character):
+        // byte length != character count
+        14 => lines.insert(k.max(1), "    LD R1, FENÊTRE_Q".into()),
+        15 => {
+            lines.insert(k.max(1), "CAFÉ .fill 1".into());
+            lines.insert((k + 2).min(lines.len()), "CAFÉ .fill 2".into());
+        }
+        16 => lines.push("LATE_É".into()),
         _ => lines.push(".orig xFFF0\n.blkw 32\n.end".into()),
     }
     lines.join("\n")
@@ -1323,7 +1353,7 @@ impl Check for TCheck {
             }
             Prop::C26 => {
                 if r.chance(1, 2) {
-                    s.src_fault = Some((r.below(14) as u8, r.below(64) as u32));
+                    s.src_fault = Some((r.below(17) as u8, r.below(64) as u32));
                     s.files.truncate(1);
                 } else if r.chance(1, 3) {
                     // damaged-object arm: one file of the set went through a disk that rewrote the
